@@ -2,7 +2,7 @@
 from ..core import graph, Call, peel, leaves, show, N
 from ..util import *
 from ..atomic import atomic_method
-from .cb_common import cb_view, CB, CRATE, STATE_ENUM, check_no_evict_in_half_open, check_window_dispatch, check_stats_partition
+from .cb_common import cb_view, CB, CRATE, STATE_ENUM, check_no_evict_in_half_open, check_window_dispatch, check_stats_partition, check_slide_symmetry
 
 EXPLANATION = (
     "History equivalence with the documented machine (window arithmetic, rates vs thresholds) is numeric and is "
@@ -304,6 +304,7 @@ def run(facts, tr, rep):
     check_no_evict_in_half_open(cb, rep, "C04.HALF-OPEN-COUNT")
     check_window_dispatch(cb, rep, "C04.WINDOW-DISPATCH")
     check_stats_partition(cb, rep, "C04.STATS-PARTITION")
+    rep.floor("C04.SLIDE-SYMMETRY.counters", check_slide_symmetry(cb, rep, "C04.SLIDE-SYMMETRY"), 2)
     # ------------------------------------------------------------ SLIDE
     for rname in ("record_success", "record_failure"):
         rb = cb.by_role(rname)
